@@ -74,6 +74,14 @@ fn random_bytes_of<G: Rng + ?Sized>(r: &mut Random<G>, shape: &str) -> R<Vec<u8>
 		"rb0" => r.random_bytes::<[u8; 0]>().to_vec(),
 		"rb1" => r.random_bytes::<[u8; 1]>().to_vec(),
 		"rb3" => r.random_bytes::<[u8; 3]>().to_vec(),
+		"rb2" => r.random_bytes::<u16>().to_le_bytes().to_vec(),
+		"rb4" => r.random_bytes::<[u8; 4]>().to_vec(),
+		"rb4u32" => r.random_bytes::<u32>().to_le_bytes().to_vec(),
+		"rb4f32" => r.random_bytes::<f32>().to_bits().to_le_bytes().to_vec(),
+		"rb4u16x2" => r.random_bytes::<[u16; 2]>().iter().flat_map(|w| w.to_le_bytes()).collect(),
+		"rb8a" => r.random_bytes::<[u8; 8]>().to_vec(),
+		"rb8f64" => r.random_bytes::<f64>().to_bits().to_le_bytes().to_vec(),
+		"rb16" => r.random_bytes::<u128>().to_le_bytes().to_vec(),
 		"rb8" => r.random_bytes::<u64>().to_le_bytes().to_vec(),
 		"rb13" => r.random_bytes::<[u8; 13]>().to_vec(),
 		"rb20" => r.random_bytes::<[u32; 5]>().iter().flat_map(|w| w.to_le_bytes()).collect(),
